@@ -32,7 +32,7 @@ def gen_real_case(seed):
                 prog.append(["unschedule_all"])
             elif r < 0.85:
                 d = rng.choice(dirs)
-                prog.append(["fs", rng.choice(["mkfile", "mkdir", "rm"]), d + "/" + rng.choice("xyz")])
+                prog.append(["fs", rng.choice(["mkfile", "mkdir", "rm", "mvout"]), d + "/" + rng.choice("xyz")])
             elif r < 0.92:
                 prog.append(["sleep", rng.choice([1, 600, 1100])])
             else:
@@ -46,7 +46,7 @@ def gen_real_case(seed):
     if sched.get("p_line", 0) > 0.05:
         sched["p_line"] = 0.05
     return {"mode": "real", "pre": pre, "progs": progs, "backend": cfg.choice(["inotify", "inotify", "polling"]),
-            "reentrant": rng.choice([None, None, "unschedule_all", "stop", "schedule"]), "watch": {"recursive": True, "root_kind": "str", "spelling": "abs"},
+            "reentrant": rng.choice([None, None, "unschedule_all", "stop", "schedule"]), "watch": {"recursive": True, "root_kind": "str", "spelling": "abs", "observer_timeout": cfg.choice([1.0, 1.0, 0.25, 0.05])},
             "faults": {"short_read": [rng.choice([32, 64, 0])]} if rng.random() < 0.3 else {}, "sched": sched}
 
 
@@ -70,6 +70,7 @@ def run_real_case(scn, case, sched_seed, trace):
         run.handlers.append(run.H(1))
         watches = {}
         state = {"started": False}
+        nout = [0]
 
         def do(op, who):
             k = op[0]
@@ -100,6 +101,10 @@ def run_real_case(scn, case, sched_seed, trace):
                             pass
                     elif op[1] == "mkdir":
                         os.mkdir(p)
+                    elif op[1] == "mvout":
+                        # leaves the watched tree: an unmatched IN_MOVED_FROM sits out the pairing delay in the emitter
+                        nout[0] += 1
+                        os.rename(p, run.real(f"out/m{nout[0]}"))
                     else:
                         if os.path.isdir(p):
                             os.rmdir(p)
@@ -113,6 +118,12 @@ def run_real_case(scn, case, sched_seed, trace):
                 res["calls"].append((who, k, None))
             except (OSError, KeyError, RuntimeError) as e:
                 res["calls"].append((who, k, type(e).__name__))
+            except Exception as e:  # noqa: BLE001 - no API call may fail in any other way, whatever it races with
+                import traceback
+
+                fn = traceback.extract_tb(e.__traceback__)[-1].name
+                res["calls"].append((who, k, type(e).__name__))
+                res.setdefault("api_raised", []).append((k, type(e).__name__, fn, str(e)[:200]))
             sim.rec("call", who, op, res["calls"][-1][2])
 
         others = []
@@ -143,6 +154,8 @@ def run_real_case(scn, case, sched_seed, trace):
                 if u["kind"] != "actor":
                     fn = u["where"][-1][2] if u["where"] else "?"
                     v.append(Violation("uncaught", f"C06:real:uncaught:{u['task'].split('#')[0]}:{u['exc']}:{fn}", str(u)))
+            for k, exc, fn, msg in res.get("api_raised", []):
+                v.append(Violation("api-raised", f"C06:real:{k}-raised:{exc}:{fn}", f"{k}() raised {exc}: {msg}; calls={res['calls']}"))
             if res.get("done") and res["alive"]:
                 v.append(Violation("thread-alive", f"C06:real:{case['backend']}:alive-after-stop-join:" + ",".join(sorted({n.split('#')[0] for n in res['alive']})), f"{res['alive']}; calls={res['calls']}"))
         finally:
